@@ -119,6 +119,9 @@ pub struct ClientPlan {
     /// give up (close, record `gave_up`) this long after connecting; 0 = wait forever
     #[serde(default)]
     pub give_up_ns: u64,
+    /// do not start before `board[key] >= 1`
+    #[serde(default)]
+    pub wait_board: Option<String>,
 }
 
 #[derive(Clone, Debug, Default, Serialize, Deserialize)]
@@ -210,6 +213,7 @@ impl Actor for H1Client {
         match self.state {
             0 => {
                 if w.board_get("configured") == 0 { return Step::Blocked; }
+                if let Some(k) = &self.plan.wait_board { if w.board_get(k) == 0 { return Step::Blocked; } }
                 if self.plan.start_ns > 0 && self.start_at == 0 { self.start_at = w.now + self.plan.start_ns; }
                 if w.now < self.start_at { return Step::Sleep(self.start_at); }
                 match w.peer_connect(&self.plan.src.clone(), &self.plan.dst.clone(), self.plan.sndbuf) {
